@@ -226,9 +226,9 @@ func init() {
 			"(restricted to the statement's preconditions in Bundling mode); plus every long-only argv of length <= 3 over 10 tokens compared across the three modes; distinct_nontrivial = distinct (definition, argv) pairs compared",
 		Assume: []string{"letters outside the alphabet and tokens longer than Ll are not covered"},
 		Run: func(c *RunCtx) {
-			ll := 3
+			ll := 4
 			if c.Tier == "thorough" {
-				ll = 4
+				ll = 5
 			}
 			res := c.Res
 			attaches := []*string{nil, sp("x"), sp("5"), sp("=y"), sp("a b")}
